@@ -131,6 +131,22 @@ def regen_consts():
         values["vma_bias_translation"] = "ok (%d lines)" % gen.count("\n")
     except (xlate_vb.XlateError, OSError, IndexError, ValueError, KeyError, TypeError) as ex:
         values.setdefault("_errors", {})["vma_bias_translation"] = "samply/src/linux_shared/svma_file_range.rs: %s" % ex
+    # the sixth translator: samply/src/shared/lib_mappings.rs -> Generated/OpQueueGen.v (C02), same rules
+    import xlate_ho
+    try:
+        gen = xlate_ho.generate(open(os.path.join(REPO, "samply", "src", "shared", "lib_mappings.rs")).read())
+        write_if_changed(os.path.join(COQ, "Generated", "OpQueueGen.v"), gen)
+        values["op_queue_translation"] = "ok (%d lines)" % gen.count("\n")
+    except (xlate_ho.XlateError, OSError, IndexError, ValueError, KeyError, TypeError) as ex:
+        values.setdefault("_errors", {})["op_queue_translation"] = "samply/src/shared/lib_mappings.rs: %s" % ex
+    # the seventh translator: fxprof-processed-profile/src/sample_table.rs -> Generated/SampleTableGen.v (C04), same rules
+    import xlate_st
+    try:
+        gen = xlate_st.generate(open(os.path.join(REPO, "fxprof-processed-profile", "src", "sample_table.rs")).read())
+        write_if_changed(os.path.join(COQ, "Generated", "SampleTableGen.v"), gen)
+        values["sample_table_translation"] = "ok (%d lines)" % gen.count("\n")
+    except (xlate_st.XlateError, OSError, IndexError, ValueError, KeyError, TypeError) as ex:
+        values.setdefault("_errors", {})["sample_table_translation"] = "fxprof-processed-profile/src/sample_table.rs: %s" % ex
     return True, "", values
 
 
